@@ -2,6 +2,7 @@
 use vh::posref::{check_visual_call, VVerdict};
 use vh::rng::Hasher;
 use vh::trk::*;
+use vh::votingref::{check_visual, Elt};
 use vh::{json, Cli, Report, Rng};
 
 fn main() {
@@ -9,12 +10,66 @@ fn main() {
     let mut rep = Report::new("C12", &cli);
     rep.note("rule", json!("case = VisualSort / BatchVisualSort (1x1 and 2x2 workers) with a random option combination (Euclidean/cosine threshold, IoU/Mahalanobis, min votes 1..3, minimal track length 1..4, max observations 1..8, use/collect quality, minimal area, own-area shares 0/0.3/0.6) x history of 30..80 calls from the presets lookalikes / crossing / crowd / convoy / random with gaps (occlusion), missing features and qualities drawn from a grid that hits the use/collect thresholds exactly. Before every call the galleries (stored features + qualities), collected counts, last boxes and filter states are read from the store; an independent reference recomputes usability, per-pair votes (stored features within the distance threshold), claim weights sum(max seen - d) and checks: a record reports visual voting only for a qualifying claim of the greatest-weight claimant; the clear top claimant of its own clear best claim gets the track with visual voting; a claimant is never attached to a track it lost; detections without any claim are an optimal gated positional assignment among tracks not taken by appearance (same oracle as C02). Every threshold comparison on a computed quantity has a 1e-5..1e-4 band inside which the call is counted as undecidable. Non-trivial call: at least one qualifying appearance claim; distinct by call hash."));
     rep.note("assumptions", json!(["own-area shares are taken from the library function (C15 judges them)", "workloads avoid the input class of the recorded C15 finding when own-area thresholds are enabled"]));
-    let n = cli.cases(240, 12_000);
+    // ---- layer A: the VisualVoting engine on generated result streams (votes, weights over ALL emitted distances,
+    // contests, positional fallback), checked by the statement-level reference shared with C17
+    if !cli.small {
+        use similari::track::ObservationMetricOk;
+        use similari::trackers::sort::VotingType;
+        use similari::trackers::visual_sort::observation_attributes::VisualObservationAttributes;
+        use similari::trackers::visual_sort::voting::VisualVoting;
+        use similari::voting::Voting;
+        use std::collections::BTreeMap;
+        let na = cli.cases(4000, 200_000);
+        for k in cli.index_range(na) {
+            if k >> 40 != 0 {
+                continue;
+            }
+            let idx = (5u64 << 40) | k;
+            let mut rng = Rng::for_case(cli.seed, cli.shard, idx);
+            let (nq, nt) = (1 + rng.usize(4), 1 + rng.usize(4));
+            let minv = 1 + rng.usize(3);
+            let thr = *rng.pick(&[0.1f32, 0.3, 0.5]);
+            let mut stream: Vec<Elt> = vec![];
+            for q in 0..nq {
+                for t in 0..nt {
+                    if !rng.chance(0.8) {
+                        continue;
+                    }
+                    let w = if rng.chance(0.8) { Some((rng.uniform(0.05, 0.95) * 1000.0).round() as f32 / 1000.0) } else { None };
+                    // one element with the track's box (positional weight), further gallery elements without
+                    let kk = rng.usize(5);
+                    for e in 0..kk.max(1) {
+                        let d = if kk == 0 || rng.chance(0.1) { None } else { Some(rng.uniform(0.0, 2.0) as f32) };
+                        stream.push(Elt { q: 1 + q as u64, t: 101 + t as u64, w: if e == 0 { w } else { None }, d });
+                    }
+                }
+            }
+            if stream.is_empty() {
+                continue;
+            }
+            rng.shuffle(&mut stream);
+            let v: Vec<ObservationMetricOk<VisualObservationAttributes>> = stream.iter().map(|e| ObservationMetricOk::new(e.q, e.t, e.w, e.d)).collect();
+            let res: BTreeMap<u64, Vec<(u64, bool)>> = VisualVoting::new(thr, f32::MAX, minv).winners(v).into_iter().map(|(q, l)| (q, l.into_iter().map(|(t, vt)| (t, matches!(vt, VotingType::Visual))).collect())).collect();
+            let ctx = json!({"stream[q,t,positional_weight,feature_distance]": stream.iter().map(|e| json!([e.q, e.t, e.w, e.d])).collect::<Vec<_>>(), "min_votes": minv, "threshold": thr});
+            rep.eval();
+            rep.count("engine_streams_checked");
+            check_visual(&mut rep, idx, &stream, thr, f32::MAX, minv, &res, &ctx, "C12/engine");
+        }
+    }
+    let n = cli.cases(560, 12_000);
     for idx in cli.index_range(n) {
+        if idx >> 40 != 0 {
+            continue;
+        }
         let mut rng = Rng::for_case(cli.seed, cli.shard, idx);
         let kind = if idx % 3 == 2 { Kind::BatchVisual } else { Kind::Visual };
         let mut cfg = gen_cfg(&mut rng, kind);
         cfg.max_idle = 1 + rng.usize(4);
+        if rng.chance(0.4) {
+            // several votes required and galleries large enough to cast them
+            cfg.vis.min_votes = 2 + rng.usize(2);
+            cfg.vis.max_obs = cfg.vis.max_obs.max(4);
+        }
         if kind == Kind::BatchVisual {
             let k = if rng.chance(0.5) { 1 } else { 2 };
             cfg.shards = k;
@@ -33,6 +88,7 @@ fn main() {
             low_quality: rng.chance(0.6),
             avoid_coincident: cfg.vis.own_use + cfg.vis.own_collect > 0.0,
             low_conf: rng.chance(0.15),
+            vary_nobj: false,
         };
         let h = HistOpts { len: if cli.small { 6 } else { 30 + rng.usize(51) }, lifecycle_ops: false, clear_wasted: false, auto_waste_ops: false, batches: false, empty_calls: false };
         let ops = gen_history(&mut rng, &w, &h);
